@@ -4,7 +4,7 @@ E2 asynchronous burst reads the same tables, and rejects a job whose suite id di
 E3 burst entry points hand back only COMPLETED jobs   E4 all handler slots bound in every variant (= C08-R2)"""
 import re
 from .. import cf, build, guards, dispatch as D
-from . import inits, c06, c05
+from . import inits, c06, c05, validation
 from .c14 import handler_assignments
 
 
@@ -35,10 +35,10 @@ def run(chk):
         for f in P.funcs(tu):
             if 'burst' not in f.name or f.param_index('run_check') is None:
                 continue
-            vcalls = [ev for _, _, ev in f.calls('is_job_invalid')]
+            vcalls = [c for c in validation.validator_calls(P, tu, f) if c.get('fn') == 'is_job_invalid']
             if not vcalls:
                 continue
-            a = vcalls[0]['e']['a']
+            a = vcalls[0]['a']
             mode = cf.evalc(a[2])
             dirn = cf.evalc(a[4])
             keyarg = cf.strip_casts(a[5])
@@ -99,7 +99,8 @@ def run(chk):
                         t = hb.get('term')
                         if not t or t['kind'] != 'ForStmt' or h not in pd.get(b, ()):
                             continue
-                        if not re.match(r'^\w+ < n_jobs$', guards.canon(t.get('fullcond')) or ''):
+                        mm = re.match(r'^\w+ < (\w+)$', guards.canon(t.get('fullcond')) or '')
+                        if not mm or mm.group(1) not in {p_['name'] for p_ in f.params}:
                             continue
                         x = hb['succ'][0]
                         seenb = set()
@@ -135,14 +136,23 @@ def run(chk):
                 ok = True
         # the goto form is not a guard block (no return): look for the errno call under the suite-id comparison
         if not ok:
-            for b, blk in g.blocks.items():
-                for ev in blk['ev']:
-                    if ev['k'] == 'call' and ev['e'].get('fn') == 'imb_set_errno' and cf.evalc(ev['e']['a'][1]) == P.enum('IMB_ERR_BURST_SUITE_ID'):
-                        for p in g.pred[b]:
-                            t = g.blocks[p].get('term') or {}
-                            c = guards.canon(t.get('fullcond')) if t.get('fullcond') else ''
-                            if 'suite_id[0]' in c and 'suite_id[1]' in c and 't[0]' in c and 't[1]' in c:
-                                ok = True
+            # the array the recomputed id is written to: second argument of set_cipher_suite_id(job, id)
+            ids = set()
+            for _, _, ev in g.calls('set_cipher_suite_id'):
+                if len(ev['e'].get('a', [])) > 1:
+                    ids.add(guards.lv(ev['e']['a'][1]))
+            with guards.in_function(g):
+                for b, blk in g.blocks.items():
+                    for ev in blk['ev']:
+                        if ev['k'] == 'call' and ev['e'].get('fn') == 'imb_set_errno' and cf.evalc(ev['e']['a'][1]) == P.enum('IMB_ERR_BURST_SUITE_ID'):
+                            for p in g.pred[b]:
+                                t = g.blocks[p].get('term') or {}
+                                c = guards.canon(t.get('fullcond')) if t.get('fullcond') else ''
+                                for idn in ids:
+                                    m0 = re.search(r'(\S+)->suite_id\[0\] != %s\[0\]|%s\[0\] != (\S+)->suite_id\[0\]' % (re.escape(idn), re.escape(idn)), c)
+                                    m1 = re.search(r'(\S+)->suite_id\[1\] != %s\[1\]|%s\[1\] != (\S+)->suite_id\[1\]' % (re.escape(idn), re.escape(idn)), c)
+                                    if m0 and m1 and ' || ' in c:
+                                        ok = True
         e2.check(ok, vt, g.loc, 'submit_burst_and_check no longer rejects a job whose suite_id differs from set_cipher_suite_id(job)')
     inits.rule_handlers(chk, P, 'E4', 'E4b', 'E4c')
     # hash cells / cipher cells are shared with the job API by construction of T1 (C06); direct-API handler bindings:
